@@ -636,7 +636,7 @@ fn interruption_storms(args: &Args) {
 /// A real signal (handler installed without SA_RESTART) delivered to the transferring thread while
 /// it is blocked in the kernel *between two fragments* of a transfer on a real stream socket or
 /// pipe. The interruption is not an outcome: the exact forms complete with every byte in order.
-#[cfg(not(miri))]
+#[cfg(all(not(miri), feature = "rawfd"))]
 fn signals_between_fragments(args: &Args) {
     use std::io::{Read, Write};
     use std::os::unix::net::UnixStream;
@@ -806,6 +806,7 @@ fn signals_between_fragments(args: &Args) {
 }
 
 /// Real descriptors: the same scripts through the interposed read(2)/write(2) on a pipe.
+#[cfg(feature = "rawfd")]
 fn fd_replay(args: &Args) {
     if !interpose::available() {
         return;
@@ -914,13 +915,16 @@ pub fn run(args: &Args) {
         interruption_storms(args);
         cursor_conservation(args);
     }
-    #[cfg(not(miri))]
+    #[cfg(all(not(miri), feature = "rawfd"))]
     if let Err(p) = guarded(|| signals_between_fragments(args)) {
         out::viol(&format!("C14/panic/signals/{}", panic_sig(&p)), J::s(p));
     }
+    #[cfg(feature = "rawfd")]
     if args.shard().0 == 0 {
         fd_replay(args);
     }
+    #[cfg(not(feature = "rawfd"))]
+    out::key("library-built-without-its-default-rawfd-feature", true);
     out::sample(jobj! {"script" => "[Short1, Eintr3, ShortK, ErrIo]", "entry" => "ReadExact", "target" => "GuestTwoRegions", "count" => 30, "meaning" => "reader delivers 1 byte, is interrupted 3 times, delivers 3 bytes, then fails with EIO: guest[a..a+4) must hold source bytes 0..4, nothing else may change, the call must return the EIO error and make no further read"});
     out::sample(jobj! {"script" => "[Zero]", "entry" => "WriteUpTo", "target" => "GuestEndsInHole", "count" => 7, "meaning" => "sink accepts nothing: guest-level write_volatile_to reports WriteZero (per-region write_all), memory unchanged"});
 }
